@@ -26,6 +26,7 @@ import (
 type lazySpec struct {
 	blocks     int
 	lostBlocks int
+	long       *longSpec // part 3b: after the pattern one LONG outage follows (long_test.go), then possibly a restart
 }
 
 func lazyBody(t *testing.T, c *explore.Ctx, sp lazySpec, sh sharder) (out outcome) {
@@ -44,6 +45,11 @@ func lazyBubble(c *explore.Ctx, sp lazySpec, sh sharder) (out outcome) {
 			lostAt[b-1] = true
 		}
 	}
+	var lg *longRun
+	if sp.long != nil {
+		// on an idle chain only headers are submitted: the outage hits every request (counted as the header stream)
+		lg = &longRun{stream: lostHeaders, kind: c.Choose("config", 3), n: sp.long.lens[c.Choose("config", len(sp.long.lens))], restart: c.Choose("config", 3)}
+	}
 	p := world.Params{InitialHeight: 1, MaxPending: limit, Lazy: true, BlockTime: time.Second, LazyInterval: 2 * time.Second, DABlockTime: daBlock, MempoolTTL: 2, GenesisTime: t0.Add(-time.Hour)}
 	env := world.NewEnv()
 	env.Seq.Next = func(req coreseq.GetNextBatchRequest) world.SeqAnswer {
@@ -55,6 +61,14 @@ func lazyBubble(c *explore.Ctx, sp lazySpec, sh sharder) (out outcome) {
 	env.DA.SubmitPolicy = func(blobs [][]byte) world.SubmitAnswer {
 		if stopping {
 			return world.SubmitCanceled
+		}
+		if lg != nil && lg.on {
+			if ans, hit := lg.answer(true); hit {
+				if ans == world.SubmitNoAnswer {
+					lostCalls++
+				}
+				return ans
+			}
 		}
 		if outage {
 			return world.SubmitGenericError
@@ -118,6 +132,9 @@ func lazyBubble(c *explore.Ctx, sp lazySpec, sh sharder) (out outcome) {
 		}
 		if restartAfterAck {
 			tg = append(tg, "restart-after-da-acceptance")
+		}
+		if lg != nil {
+			tg = append(tg, lg.tags()...)
 		}
 		return tg
 	}
@@ -185,6 +202,29 @@ func lazyBubble(c *explore.Ctx, sp lazySpec, sh sharder) (out outcome) {
 		lost = false
 	}
 	outage = false
+	// part 3b: one LONG outage, counted in failed submission attempts, then (optionally) a restart
+	if lg != nil {
+		out.events = append(out.events, fmt.Sprintf("long DA outage: the next %d submission attempts are %s", lg.n, longKindName[lg.kind]))
+		if lg.kind == longLost {
+			sawLost = true
+		} else {
+			sawOutage = true
+		}
+		lg.on = true
+		el := 0
+		for ; el < lg.capBlocks() && !lg.done(); el++ {
+			second()
+		}
+		lg.on = false
+		out.longFailed, out.exhausted = lg.failed, lg.exhausted()
+		out.events = append(out.events, fmt.Sprintf("the outage is over after %d DA blocks (%d submission attempts failed); from now on the DA layer accepts", el, lg.failed[0]))
+		if lg.restart != 0 {
+			if f := restart(lg.restart, blocks+el+1); f != nil {
+				out.fail, out.tags = f, tags()
+				return
+			}
+		}
+	}
 	closing := 4
 	if sawLost { // the node is given lostHorizon accepting DA blocks to give the unanswered call up and send the blobs again
 		closing += lostHorizon
